@@ -25,8 +25,17 @@ func genC06(r *Rnd, t Tier) *Case {
 	nst := r.Range(1, 3)
 	for s := 0; s < nst; s++ {
 		stack := []int{0}
-		switch r.Intn(6) {
+		switch r.Intn(7) {
 		case 0:
+		case 6:
+			// a second, smaller bulkhead in the same stack: the one around it sees ErrFull coming from inside
+			// (a result like any other: its own permit goes back), the one inside is refused work the outer admitted
+			sc.Policies = append(sc.Policies, PolicySpec{Kind: KBulkhead, MaxConc: 1, MaxWait: pick(r, 0, 0, time.Duration(r.Range(1, 8))*unit)})
+			if r.P(0.7) {
+				stack = append(stack, len(sc.Policies)-1)
+			} else {
+				stack = append([]int{len(sc.Policies) - 1}, stack...)
+			}
 		case 1:
 			p := genRetry(r, unit)
 			p.MaxRetries = pick(r, 1, 2)
